@@ -31,6 +31,14 @@ theorem scanner_facts :
     parseTrimsSpace = true ∧ parseSetsScannerBuffer = false ∧ parseChecksScannerErr = true ∧
     maxScanTokenSize = maxToken := by pin
 
+/-- `Parse` is stateless from line to line: the only things it assigns are the current definition, its error,
+the trimmed line, the line counter, the scanner and the result list; the only `continue` is the one for
+comments/blank lines; every other line appends exactly one definition; nothing is allocated to remember
+earlier lines. (`Model.Parse.parseLines` maps each line independently.) -/
+theorem parse_stateless :
+    parseAssigned = ["def", "defs", "err", "i", "result", "scanner"] ∧
+    parseContinues = 1 ∧ parseAllocations = 0 ∧ parseAppends = ["append(defs, def)"] := by pin
+
 /-! ### the grammars: flexible space, sources, order of attempts -/
 
 theorem flexible_space : flexFrom = " " ∧ flexTo = "\\s+" ∧ flexCount = "-1" ∧ flexCompiles = 1 := by pin
